@@ -23,7 +23,8 @@ RULE = ("(1) Version order: firmware triples a.b.c with multi-digit components a
         "recorded, nothing written but 'v\\r' (at most twice), and a following request writes nothing and returns "
         "its failure value. (3) Legacy gates (servo_timeout 2.6.0, queryVoltage 2.2.3, query_nickname / "
         "write_nickname / reboot 2.5.5) on a legacy board stub: the gated command is written <=> the reported "
-        "version >= threshold, and never to a silent or unidentifiable device. Non-trivial: a version with a "
+        "version >= threshold, and never to a silent or unidentifiable device - also when another board with a "
+        "different version was attached under the same device name earlier in the process. Non-trivial: a version with a "
         "component >= 10 on either side of the comparison. Distinct = distinct scripts / version pairs.")
 ASSUMPTIONS = [
     "device replies are ASCII text lines; a device that says 'EBB' without a 'Firmware Version a.b.c' field is "
@@ -38,7 +39,8 @@ ASSUMPTIONS = [
 REQUIRED_CLASSES = ["nontrivial", "order_equal", "order_older", "order_newer", "order_string_order_differs",
                     "connect_ok", "connect_old_firmware", "connect_non_ebb", "connect_silent", "connect_late",
                     "connect_cannot_open", "connect_probe_fault", "connect_no_port", "connect_by_name",
-                    "gate_open", "gate_closed", "gate_unidentified", "boundary_version", "connect_retry"]
+                    "gate_open", "gate_closed", "gate_unidentified", "boundary_version", "connect_retry",
+                    "gate_after_other_board", "order_after_other_board"]
 QUICK_SHARDS = 4
 
 ebb_serial = sut.load("ebb_serial")
@@ -60,7 +62,13 @@ def body_order(ctx, case):
     if (vstr(version) >= vstr(threshold)) != want:
         classes.add("order_string_order_differs")
     nontrivial = any(c >= 10 for c in version + threshold)
+    if case.get("prior"):
+        classes.add("order_after_other_board")
     ctx.record(case, classes, nontrivial)
+    if case.get("prior"):
+        # another board was attached under the same device name earlier in this process
+        classes.add("order_after_other_board")
+        call_sut(ebb_serial.min_version, FakePort(Board("legacy", version=vstr(case["prior"]))), vstr(threshold))
     port = FakePort(Board("legacy", version=vstr(version)))
     got = call_sut(ebb_serial.min_version, port, vstr(threshold))
     if got is not want:
@@ -254,7 +262,17 @@ def body_gate(ctx, case):
             classes.add("boundary_version")
         nontrivial = any(c >= 10 for c in version)
         shown = vstr(version)
+    if case.get("prior"):
+        classes.add("gate_after_other_board")
     ctx.record(case, classes, nontrivial)
+    if case.get("prior"):
+        # the same gated call was made earlier against another board attached under the same device name
+        try:
+            call(FakePort(Board("legacy", version=vstr(case["prior"]), nickname="West")))
+        except Exception as exc:  # pylint: disable=broad-except
+            ctx.fail("%s on a board reporting %s raised %s: %s" % (gate, vstr(case["prior"]), type(exc).__name__,
+                                                                   exc), case)
+        shown += " (attached after a board reporting %s)" % vstr(case["prior"])
     port = FakePort(board)
     try:
         call(port)
@@ -302,7 +320,10 @@ def near(draw, base):
 def order_cases(draw):
     t = draw(st.one_of(st.sampled_from(THRESHOLDS), TRIPLE))
     v = draw(st.one_of(TRIPLE, near(st.just(t)), st.just(t)))
-    return {"v": list(v), "t": list(t)}
+    case = {"v": list(v), "t": list(t)}
+    if draw(st.integers(0, 3)) == 0:
+        case["prior"] = list(draw(st.one_of(TRIPLE, near(st.just(t)))))
+    return case
 
 
 def order_grid():
@@ -360,13 +381,20 @@ def gate_grid():
             yield {"gate": gate, "v": list(version)}
         yield {"gate": gate, "v": "silent"}
         yield {"gate": gate, "v": "garbage"}
+        for prior, version in (((2, 8, 1), (2, 2, 2)), ((2, 2, 2), (2, 8, 1)), ((2, 10, 0), (2, 5, 4)),
+                               ((2, 5, 4), (2, 10, 0)), ((3, 0, 0), (1, 9, 9))):
+            yield {"gate": gate, "v": list(version), "prior": list(prior)}
+        yield {"gate": gate, "v": "silent", "prior": [2, 8, 1]}
 
 
 @st.composite
 def gate_cases(draw):
     gate = draw(st.sampled_from(sorted(GATES)))
     version = draw(st.one_of(TRIPLE, near(st.just(GATES[gate][0]))))
-    return {"gate": gate, "v": list(version)}
+    case = {"gate": gate, "v": list(version)}
+    if draw(st.integers(0, 2)) == 0:
+        case["prior"] = list(draw(st.one_of(TRIPLE, near(st.just(GATES[gate][0])), st.sampled_from(GATE_VERSIONS))))
+    return case
 
 
 def run(ctx):
